@@ -10,12 +10,10 @@ Theorems about the models `BFL.HistBuf` (BFL/Model/History.lean: `HistoryBuffer`
 `directional_mean` it uses), for every sequence of calls, every window size, every particle set,
 log-weights, likelihoods and transition matrix.  Numbers are read over ℝ.
 
-One clause of the property does **not** hold for the code as it is (and hence not for the model):
-with exactly one column (`mean` of a single particle; a windowed estimate when the history holds a
-single estimate) `directional_mean` returns the circular components unwrapped, so the result is the
-weighted circular mean only modulo 2π.  The full-strength statement is kept (`MeanCircularSpec`),
-refuted on a witness (`mean_circular_counterexample`), and proved on the remaining inputs
-(`mean_circular_partial`, `mean_circular_mod_two_pi`).
+History: with exactly one column (`mean` of a single particle; a windowed estimate when the history
+holds a single estimate) `directional_mean` used to return the circular components unwrapped
+(7.0 instead of 0.7168); repaired in /repo by e5e0548 (the column is wrapped).  The model follows the
+repaired code and the circular clause is proved at full strength (`mean_circular_spec`).
 -/
 namespace BFL
 namespace C17
@@ -161,24 +159,27 @@ theorem unwindowed_returns_base (eps : ℝ) (s : EE ℝ) (a : Args ℝ) (hf : s.
 /-! ## The base statistics -/
 
 /-- `mean`: the estimate has `lin + circ` rows; linear row `r` is `Σ_j x_{rj} e^{w_j}` — the weighted
-    arithmetic mean `Σ_j x_{rj} e^{w_j} / Σ_j e^{w_j}` for normalised log-weights; with more than one
-    particle circular row `r` is the argument of the weighted resultant `Σ_j e^{w_j} e^{i θ_{rj}}`. -/
+    arithmetic mean `Σ_j x_{rj} e^{w_j} / Σ_j e^{w_j}` for normalised log-weights; circular row `r` is the
+    argument of the weighted resultant `Σ_j e^{w_j} e^{i θ_{rj}}` (one log-weight per particle). -/
 theorem mean_is_weighted_mean (lin circ : Nat) (ps : List (List ℝ)) (ws : List ℝ) :
     (meanEst lin circ ps ws).length = lin + circ ∧
     (∀ r, r < lin → (meanEst lin circ ps ws)[r]?
         = some (List.zipWith (fun p w => p.getD r 0 * Real.exp w) ps ws).sum) ∧
     (∀ r, r < lin → (ws.map Real.exp).sum = 1 → (meanEst lin circ ps ws)[r]?
         = some ((List.zipWith (fun p w => p.getD r 0 * Real.exp w) ps ws).sum / (ws.map Real.exp).sum)) ∧
-    (∀ r, r < circ → ps.length ≠ 1 → (meanEst lin circ ps ws)[lin + r]?
+    (∀ r, r < circ → ps.length = ws.length → (meanEst lin circ ps ws)[lin + r]?
         = some (Complex.arg (resultant (rowOf ps (lin + r)) (ws.map Real.exp)))) := by
   refine ⟨meanEst_length lin circ ps ws, ?_, ?_, ?_⟩
   · intro r hr
     rw [meanEst_lin lin circ ps ws r hr, linMean_eq]
   · intro r hr hn
     rw [meanEst_lin lin circ ps ws r hr, linMean_eq, hn, div_one]
-  · intro r hr hN
-    rw [meanEst_circ lin circ ps ws r hr, dirMean_eq_arg]
-    simpa [rowOf] using hN
+  · intro r hr hlen
+    rw [meanEst_circ lin circ ps ws r hr, dirMean_eq_arg_of_pos]
+    · simpa [rowOf] using hlen
+    · intro e he
+      obtain ⟨w, _, rfl⟩ := List.mem_map.mp he
+      exact Real.exp_pos w
 
 /-- Full-strength circular clause of the property: for every non-empty particle set with normalised
     log-weights, every circular row of `mean` is the weighted circular mean (argument of the resultant). -/
@@ -187,45 +188,32 @@ def MeanCircularSpec : Prop :=
     r < circ → ps ≠ [] → ps.length = ws.length → (ws.map Real.exp).sum = 1 →
     (meanEst lin circ ps ws)[lin + r]? = some (Complex.arg (resultant (rowOf ps (lin + r)) (ws.map Real.exp)))
 
-/-- It holds whenever there is more than one particle, or the single particle's angle already lies in
-    `(−π, π]` (excluded: exactly one particle whose circular component is outside that interval). -/
-theorem mean_circular_partial (lin circ : Nat) (ps : List (List ℝ)) (ws : List ℝ) (r : Nat)
-    (hr : r < circ) (hlen : ps.length = ws.length)
-    (hex : ps.length ≠ 1 ∨ ∀ p ∈ ps, p.getD (lin + r) 0 ∈ Set.Ioc (-Real.pi) Real.pi) :
-    (meanEst lin circ ps ws)[lin + r]? = some (Complex.arg (resultant (rowOf ps (lin + r)) (ws.map Real.exp))) := by
-  by_cases hN : ps.length = 1
-  · rcases hex with h | h
-    · exact absurd hN h
-    · rw [meanEst_circ lin circ ps ws r hr]
-      obtain ⟨p, rfl⟩ := List.length_eq_one_iff.mp hN
-      obtain ⟨w, rfl⟩ := List.length_eq_one_iff.mp (hlen ▸ hN : ws.length = 1)
-      simp only [rowOf, List.map_cons, List.map_nil]
-      rw [dirMean_single_of_mem _ _ (Real.exp_pos w) (h p (by simp))]
-  · exact (mean_is_weighted_mean lin circ ps ws).2.2.2 r hr hN
+/-- The circular clause holds at full strength (single particle included, after fix e5e0548), and the
+    value lies in `(−π, π]`. -/
+theorem mean_circular_spec : MeanCircularSpec := by
+  intro lin circ ps ws r hr _ hlen _
+  exact (mean_is_weighted_mean lin circ ps ws).2.2.2 r hr hlen
 
-/-- In every case the circular row is the weighted circular mean modulo `2π` (the same point of the circle). -/
-theorem mean_circular_mod_two_pi (lin circ : Nat) (ps : List (List ℝ)) (ws : List ℝ) (r : Nat)
+theorem mean_circular_in_range (lin circ : Nat) (ps : List (List ℝ)) (ws : List ℝ) (r : Nat)
     (hr : r < circ) (hlen : ps.length = ws.length) :
-    ∃ (v : ℝ) (k : ℤ), (meanEst lin circ ps ws)[lin + r]? = some v ∧
-      v = Complex.arg (resultant (rowOf ps (lin + r)) (ws.map Real.exp)) + k * (2 * Real.pi) := by
-  by_cases hN : ps.length = 1
-  · obtain ⟨p, rfl⟩ := List.length_eq_one_iff.mp hN
-    obtain ⟨w, rfl⟩ := List.length_eq_one_iff.mp (hlen ▸ hN : ws.length = 1)
-    obtain ⟨k, hk⟩ := dirMean_single_mod (p.getD (lin + r) 0) (Real.exp w) (Real.exp_pos w)
-    refine ⟨_, k, meanEst_circ lin circ [p] [w] r hr, ?_⟩
-    simpa [rowOf] using hk
-  · exact ⟨_, 0, (mean_is_weighted_mean lin circ ps ws).2.2.2 r hr hN, by simp⟩
+    ∃ v, (meanEst lin circ ps ws)[lin + r]? = some v ∧ v ∈ Set.Ioc (-Real.pi) Real.pi :=
+  ⟨_, (mean_is_weighted_mean lin circ ps ws).2.2.2 r hr hlen, arg_mem_Ioc _⟩
 
-/-- The full-strength clause fails: one particle at angle 7 with weight 1 (log-weight 0) gives 7, whereas
-    the circular mean is `7 − 2π ≈ 0.7168`. -/
-theorem mean_circular_counterexample : ¬ MeanCircularSpec := by
-  intro h
-  have h1 := h 0 1 [[7]] [0] 0 (by norm_num) (by simp) rfl (by simp)
-  rw [meanEst_circ 0 1 [[7]] [0] 0 (by norm_num)] at h1
-  simp only [rowOf, List.map_cons, List.map_nil, Real.exp_zero, Option.some.injEq] at h1
-  have h2 : (([7] : List ℝ).getD (0 + 0) 0) = 7 := by simp
-  rw [h2] at h1
-  exact dirMean_single_counterexample.2 h1
+/-- The former counterexample: one particle at angle 7 with weight 1 now gives `arg e^{7i}` (= 7 − 2π),
+    not 7. -/
+theorem mean_single_particle_wrapped :
+    (meanEst 0 1 [[(7 : ℝ)]] [0])[0]? = some (Complex.arg (Complex.exp ((7 : ℝ) * Complex.I))) ∧
+    Complex.arg (Complex.exp ((7 : ℝ) * Complex.I)) ≠ 7 := by
+  constructor
+  · have h := meanEst_circ 0 1 [[(7 : ℝ)]] [0] 0 (by norm_num)
+    simp only [rowOf, List.map_cons, List.map_nil, Nat.zero_add] at h
+    rw [h, dirMean_single]
+    simp
+  · intro h
+    have h1 := Complex.arg_le_pi (Complex.exp ((7 : ℝ) * Complex.I))
+    have h2 := Real.pi_le_four
+    rw [h] at h1
+    linarith
 
 /-- `mode` returns the particle at the first index of maximal log-weight (as Eigen's `maxCoeff`). -/
 theorem mode_is_argmax (ps : List (List ℝ)) (ws : List ℝ) (hlen : ps.length = ws.length) (hne : ws ≠ []) :
@@ -361,7 +349,7 @@ theorem hist_len_min_calls_window (eps : ℝ) (lin circ : Nat) (pre cs : List (C
     estimates (`b` first), `k = min(stored + 1, window) ∈ [1, 30]`, and `a` the family's weight vector for
     `k`, which after `exp` is positive, sums to one, does not increase with age and is constant `1/k` for
     the simple variant.  `mean(H, a)` is the very function of `mean_is_weighted_mean`: linear rows
-    `Σ_i a_i H_i[r]`, circular rows averaged on the circle (see `windowed_rows`). -/
+    `Σ_i a_i H_i[r]`, circular rows averaged on the circle (`windowed_rows`, with `H.length = a.length = k`). -/
 theorem windowed_is_convex_combination (eps : ℝ) (lin circ : Nat) (pre : List (Call ℝ)) (c : Call ℝ)
     (b : List ℝ) (hp : pushed eps (runLog eps lin circ pre).1 c = some b) :
     let s := (runLog eps lin circ pre).1
@@ -385,41 +373,30 @@ theorem windowed_is_convex_combination (eps : ℝ) (lin circ : Nat) (pre : List 
   subst hfs
   exact smWeights_exp _ hk1
 
-/-- Row-wise reading of `mean(H, a)` for a window of `k = H.length` estimates with log-weights `lw`:
-    linear rows are the combination `Σ_i H_i[r]·e^{lw_i}`; circular rows are the argument of
-    `Σ_i e^{lw_i} e^{i H_i[r]}` when `k ≠ 1`, and — the one-column shortcut — the single stored value
-    itself when `k = 1` (equal to that argument modulo 2π, `mean_circular_mod_two_pi`). -/
-theorem windowed_rows (lin circ : Nat) (H : List (List ℝ)) (lw : List ℝ) :
+/-- Row-wise reading of `mean(H, a)` for a window of `k = H.length` estimates with log-weights `lw`
+    (one per estimate): linear rows are the combination `Σ_i H_i[r]·e^{lw_i}`; circular rows are averaged
+    on the circle, `arg Σ_i e^{lw_i} e^{i H_i[r]}` — also for `k = 1`, where this is the single stored
+    value wrapped to `(−π, π]`. -/
+theorem windowed_rows (lin circ : Nat) (H : List (List ℝ)) (lw : List ℝ) (hlen : H.length = lw.length) :
     (∀ r, r < lin → (meanEst lin circ H lw)[r]?
         = some (List.zipWith (fun h w => h.getD r 0 * Real.exp w) H lw).sum) ∧
-    (∀ r, r < circ → H.length ≠ 1 → (meanEst lin circ H lw)[lin + r]?
+    (∀ r, r < circ → (meanEst lin circ H lw)[lin + r]?
         = some (Complex.arg (resultant (rowOf H (lin + r)) (lw.map Real.exp)))) ∧
-    (∀ r b, r < circ → H = [b] → (meanEst lin circ H lw)[lin + r]? = some (b.getD (lin + r) 0)) := by
+    (∀ r b, r < circ → H = [b] → (meanEst lin circ H lw)[lin + r]?
+        = some (Complex.arg (Complex.exp ((b.getD (lin + r) 0 : ℝ) * Complex.I)))) := by
   obtain ⟨_, h1, _, h3⟩ := mean_is_weighted_mean lin circ H lw
-  refine ⟨h1, h3, ?_⟩
+  refine ⟨h1, fun r hr => h3 r hr hlen, ?_⟩
   intro r b hr hH
   subst hH
   rw [meanEst_circ lin circ [b] lw r hr]
-  rfl
+  simp only [rowOf, List.map_cons, List.map_nil]
+  rw [dirMean_single]
 
 /-- non-vacuity of `windowed_is_convex_combination`: default method `emode`, two calls. -/
 example : pushed (1 : ℝ) (runLog 1 1 0 [.extract2 { ps := [[3]], ws := [0] }]).1
     (.extract2 { ps := [[5], [4]], ws := [0, 1] }) = some [4] := by
   simp [runLog, runLogFrom, pushed, step, extract2, EE.init, Method.stat, Method.fam, windowed,
     baseEst, modeEst, argmaxFirst, argmaxAux, EE.setCached]
-
-/-- The same deviation in windowed form: the first windowed call after construction (or `clear`) holds a
-    single estimate, which is returned with its circular component unwrapped — here `smode` on one
-    particle at angle 7 returns 7, whereas "averaged on the circle" it is `arg e^{7i} = 7 − 2π`. -/
-theorem windowed_circular_counterexample :
-    (step (1 : ℝ) (run 1 0 1 [.setMethod .smode]) (.extract2 { ps := [[7]], ws := [0] })).2.est = some [7] ∧
-    (7 : ℝ) ≠ Complex.arg (resultant [7] [1]) := by
-  constructor
-  · simp [run, runFrom, step, extract2, EE.init, Method.stat, Method.fam, windowed, baseEst, modeEst,
-      argmaxFirst, argmaxAux, EE.setCached, HistBuf.add, HistBuf.init, EE.cached, famWeights, smWeights,
-      meanEst, dirMean, rowOf]
-  · have h := dirMean_single_counterexample.2
-    rwa [dirMean_single] at h
 
 end C17
 end BFL
